@@ -4,6 +4,8 @@ import BearVerif.Core.Fwd
 
     `(c07 run (BUILTIN…) (HEAPENTRY…) (EVENT…))` → one output per event:
        `silent` | `(crash KIND ARG)` | `(called IMPL SPEC (CACHEENTRY…) (FRESHENTRY…))`
+       SPEC = the annotation read at the DEF POINT of the callable (`specCall`): a name bound when the `def` executed
+       denotes what it denoted then, whatever it was rebound to since; a name unbound then is read now.
        CACHEENTRY = `((NAME…) val|fake)`: the resolved-proxy cache after the call. FRESHENTRY, same form: for every
        SUBSCRIPTED proxy of the stored hint, what a proxy of that name made NOW resolves to — the violation raiser
        re-evaluates a string that is still inside the hint (`Optional['K[int]']`, a postponed string literal), `K[int]`
@@ -120,16 +122,25 @@ def outStr (s : St) (fresh : Sexp) : Out → Sexp
   | .crash e => .list (.atom "crash" :: errStr e)
   | .called i sp => .list [.atom "called", rhStr i, rhStr sp, cacheStr s.cache, fresh]
 
-def runOut (s : St) : List Ev → List Sexp
+/-- the SPEC field of a call is `specCall`: the annotation read at the def point of the callable (`specDef`; it is
+    `specNow`, the field of `Out.called`, whenever no name of the annotation was rebound since: `C07_spec_def_now`) -/
+def specOf (dp : DefPoints) (s : St) (ev : Ev) : Out → Out
+  | .called i sp => match ev with
+    | .call f => .called i ((specCall dp s f).getD sp)
+    | _ => .called i sp
+  | o => o
+
+def runOut (dp : DefPoints) (s : St) : List Ev → List Sexp
   | [] => []
   | ev :: evs =>
     let (s', o) := step s ev
+    let dp' := recordDef dp s ev
     let fresh := match ev with
       | .call f => match (s'.func? f).bind (·.hint) with
         | some h => freshStr s' (subbedOf h)
         | none => .list []
       | _ => .list []
-    outStr s' fresh o :: runOut s' evs
+    outStr s' fresh (specOf dp' s' ev o) :: runOut dp' s' evs
 
 partial def tokStr : Tok → Sexp
   | .id n => .list [.atom "id", .atom n]
@@ -164,7 +175,7 @@ def handle (args : List Sexp) : Option Sexp := do
       | .list (i :: attrs) => do pure ((← i.nat?), (← scopeOf attrs))
       | _ => none
     let evs ← evs.mapM evOf
-    pure (.list (runOut (St.init builtins heap) evs))
+    pure (.list (runOut [] (St.init builtins heap) evs))
   | _ => none
 
 end BearVerif.Fwd
